@@ -159,6 +159,8 @@ pub fn layout(plan: &Plan, sandbox: &Path) -> Layout {
         sandbox.join("gen").join("Gen.designspace")
     } else if let Some(rel) = plan.source.strip_prefix("sandbox:") {
         sandbox.join("src").join(rel)
+    } else if let Some(rel) = plan.source.strip_prefix("extra:") {
+        crate::workload::extra_sources_dir().expect("the sources directory kept with the checks").join(rel)
     } else if plan.source.starts_with('/') {
         PathBuf::from(&plan.source)
     } else if plan.faults.iter().any(|f| f.kind.starts_with("src-")) {
